@@ -157,7 +157,7 @@ fn parse_vspec(path: &Path) -> Vec<FileSpec> {
                             it.tags = d.args.clone();
                         }
                     }
-                    "attr" | "pre" | "post" => it.dirs.push(d.clone()),
+                    "attr" | "pre" | "post" | "inner-start" => it.dirs.push(d.clone()),
                     "external" => it.external.extend(d.args.clone()),
                     "all-external" => it.all_external = true,
                     "verify" => it.verify.extend(d.args.clone()),
@@ -506,7 +506,7 @@ fn pass1(fs_: &FileSpec, text: &str, norms: &mut Vec<String>) -> String {
     if fs_.file == "lib.rs" {
         // N7: the lint attribute forbids the `unsafe` that Verus' own expansion of `assume_specification` uses
         if let Some(p) = src.text.find("#![forbid(unsafe_code)]") {
-            edits.rep(p, "#![forbid(unsafe_code)]".len(), "#![allow(unused, unexpected_cfgs)]".to_string(), meta(&[("kind", "norm")]));
+            edits.rep(p, "#![forbid(unsafe_code)]".len(), "#![allow(unused, unexpected_cfgs)]\n#![feature(allocator_api)]".to_string(), meta(&[("kind", "norm")]));
             norms.push("N7 lib.rs: `#![forbid(unsafe_code)]` -> `#![allow(unused)]` in the unit root (lint only; the repository file keeps it)".to_string());
         }
     }
@@ -756,6 +756,55 @@ fn pass2(fs_: &FileSpec, text1: &str, is_root: bool, map: &mut Vec<BTreeMap<Stri
         close.push_str("} // verus!\n");
         edits.ins(iend, close, base("item-close", None, "", ""));
 
+        // @inner-start: text right after the opening brace of an impl / trait
+        for d in st.dirs.iter().filter(|d| d.kind == "inner-start") {
+            let open_end = match item {
+                syn::Item::Impl(i) => src.off(i.brace_token.span.open().end()),
+                syn::Item::Trait(t) => src.off(t.brace_token.span.open().end()),
+                _ => die(&format!("{}: @inner-start on an item without braces", ictx)),
+            };
+            edits.ins(open_end, format!("\n{}", d.text), base("inner", Some(d), "", ""));
+        }
+        // body-less trait method declarations: @ret / @spec go before the `;`
+        if let syn::Item::Trait(t) = item {
+            for fs_st in &st.fns {
+                let m = t.items.iter().find_map(|ti| match ti {
+                    syn::TraitItem::Fn(m) if m.sig.ident == fs_st.name.as_str() => Some(m),
+                    _ => None,
+                });
+                let m = match m {
+                    Some(m) => m,
+                    None => {
+                        lost(format!("LOST-ANCHOR: fn `{}` not found in trait `{}`", fs_st.name, st.selector));
+                        continue;
+                    }
+                };
+                let ftags = fs_st.tags.join(",");
+                let mut fr = base("fn-range", None, &fs_st.name, &ftags);
+                fr.insert("has_stanza".into(), "true".into());
+                fn_ranges.push((src.start(m), src.end(m), fr));
+                for d in &fs_st.dirs {
+                    match d.kind.as_str() {
+                        "ret" => {
+                            let name = d.args.get(0).cloned().unwrap_or_else(|| "r".into());
+                            if let syn::ReturnType::Type(_, ty) = &m.sig.output {
+                                edits.ins(src.start(ty.as_ref()), format!("({}: ", name), base("ret", Some(d), &fs_st.name, &ftags));
+                                edits.ins(src.end(ty.as_ref()), ")".to_string(), base("ret", Some(d), &fs_st.name, &ftags));
+                            }
+                        }
+                        "spec" => {
+                            let at = match (&m.default, &m.semi_token) {
+                                (None, Some(semi)) => src.start(semi),
+                                (Some(b), _) => src.off(b.brace_token.span.open().start()),
+                                _ => die("trait fn without body or semi"),
+                            };
+                            edits.ins(at, format!("\n{}", d.text), base("spec", Some(d), &fs_st.name, &ftags));
+                        }
+                        other => die(&format!("{}: @{} not supported on trait method declarations", ictx, other)),
+                    }
+                }
+            }
+        }
         let (sel, ext) = selected_fns(&src, item, st, true);
         for (off, _name) in &ext {
             edits.ins(*off, "#[verifier::external] ".to_string(), base("external", None, "", ""));
